@@ -1357,10 +1357,11 @@ func (c *Conn) ConnectionState() ConnectionState {
 		state.SignedCertificateTimestamps = c.scts
 		state.OCSPResponse = c.ocspResponse
 		if !c.didResume {
+			// a copy: the arrays are overwritten by the next (re)handshake
 			if c.clientFinishedIsFirst {
-				state.TLSUnique = c.clientFinished[:]
+				state.TLSUnique = append([]byte(nil), c.clientFinished[:]...)
 			} else {
-				state.TLSUnique = c.serverFinished[:]
+				state.TLSUnique = append([]byte(nil), c.serverFinished[:]...)
 			}
 		}
 		if c.config.Renegotiation != RenegotiateNever {
